@@ -177,6 +177,16 @@ class IntervalView(Family):
                     f = i * n + j
                     ctx.claim("closed-intervals:row-ends-with-next-first",
                               ctx.same(c[i, j], vs[f]) if f < L else is_nan(c[i, j]), {"i": i, "j": j})
+        # the last, possibly partial row kept: it is closed with NaN (there is no next row)
+        ck = ia.to_2d_array_closed_intervals(drop_last=False)
+        ctx.claim("closed-intervals(keep-last):shape", ck.shape == (rows, n + 1), {"shape": ck.shape})
+        if ck.shape == (rows, n + 1):
+            for i in range(rows):
+                for j in range(n + 1):
+                    f = i * n + j
+                    inside = f < L and (j < n or i < rows - 1)
+                    ctx.claim("closed-intervals(keep-last):row-ends-with-next-first-or-nan",
+                              ctx.same(ck[i, j], vs[f]) if inside else is_nan(ck[i, j]), {"i": i, "j": j})
         # writes go to the same flat position and nowhere else
         w = ctx.real("w")
         ia2 = IntervalArray(arr(ctx, vs), n)
